@@ -4,6 +4,7 @@ From EV Require Import Base.Str Model.Value Model.Keyspace Model.Reply Model.Pro
 From EV Require Import Model.CmdList Model.CmdGeneric Model.CmdString Model.CmdHash Model.CmdSet Model.CmdZSet.
 From EV Require Import Proofs.KeyspaceLemmas Proofs.ProgLemmas Proofs.DispatchLemmas Proofs.HandlerClasses.
 From EV Require Import Proofs.ListProofs Proofs.HashProofs Proofs.SetProofs Proofs.ZSetProofs.
+From EV Require Import Model.CmdZRand Model.CmdKeyspace Model.TableTypes Model.Acl Proofs.ZRandProofs Proofs.KeyspaceCmds Proofs.TableObligations Gen.CmdTable.
 Local Open Scope Z_scope.
 
 (** [same_view s s']: every key of every database shows the same value, type and deadline to every
@@ -73,6 +74,47 @@ Theorem C13_error_pure_zset : forall argv s d,
   st_maxmem s = 0 -> snd (exec_zset d argv s) = RErr -> same_view s (fst (exec_zset d argv s)).
 Proof. exact zset_error_changes_nothing. Qed.
 Print Assumptions C13_error_pure_zset.
+
+Theorem C13_error_pure_zset_all : forall pick argv s d,
+  st_maxmem s = 0 -> snd (exec_zset_r pick d argv s) = RErr -> same_view s (fst (exec_zset_r pick d argv s)).
+Proof. exact zset_r_error_changes_nothing. Qed.
+Print Assumptions C13_error_pure_zset_all.
+
+Theorem C13_error_pure_keyspace : forall cands name h argv d s,
+  keyspace_handler cands name = Some h ->
+  snd (run_seq d (h argv) s) = RErr -> same_view s (fst (run_seq d (h argv) s)).
+Proof. intros. eapply err_before_write_pure; eauto. by eapply eb_keyspace. Qed.
+Print Assumptions C13_error_pure_keyspace.
+
+(** The randomised readers are pure for EVERY resolution of their random choice (selection functions of
+    SRANDMEMBER and ZRANDMEMBER, random source of RANDOMKEY), not only for the one [handler_of] runs. *)
+Theorem C13_randomised_readers_pure : forall pick zpick cands argv d s,
+  same_view s (fst (run_seq d (handle_srandmember pick argv) s)) /\
+  same_view s (fst (run_seq d (handle_zrandmember zpick argv) s)) /\
+  fst (run_seq d (handle_randomkey cands argv) s) = s.
+Proof.
+  intros. split; [apply readonly_pure, ro_srandmember|]. split; [apply readonly_pure, ro_zrandmember|apply randomkey_state].
+Qed.
+Print Assumptions C13_randomised_readers_pure.
+
+(** TOUCH, OBJECTFREQ, OBJECTIDLETIME on a server without a memory limit: nothing is read, nothing
+    changes, not even physically; the reply is fixed by the arity. *)
+Theorem C13_keyspace_function_commands_exact : forall argv d s,
+  run_seq d (handle_touch argv) s = (s, if (length argv <? 2)%nat then RErr else RSimple "0") /\
+  run_seq d (handle_objfreq argv) s = (s, RErr) /\ run_seq d (handle_objidletime argv) s = (s, RErr).
+Proof. intros. split; [apply touch_exact|]. split; [apply objfreq_exact|apply objidletime_exact]. Qed.
+Print Assumptions C13_keyspace_function_commands_exact.
+
+(** Table obligations (regenerated command table): every read-category row is one of the 47 read-only
+    words; every row of the six data modules has a model handler. *)
+Theorem C13_read_rows_classified :
+  forallb (fun r => negb (is_read_row r) || mem (cr_name r) all_readonly_words
+                    || (mem (cr_name r) ro_not_modelled && negb (modelled (cr_name r)))) top_rows = true
+  /\ length (filter is_read_row top_rows) = 47%nat.
+Proof. exact read_rows_classified. Qed.
+Theorem C13_data_rows_modelled :
+  forallb (fun r => negb (mem (cr_module r) data_modules) || modelled (cr_name r)) top_rows = true.
+Proof. exact data_rows_modelled. Qed.
 
 (** "Never share structure": in the model values are immutable, so a STORE destination cannot alias a
     source; what that means observably is the frame part of C16_frame / C17_frame (a later write to the
